@@ -8,7 +8,7 @@ import math
 import numpy as np
 
 from . import _rfa as R
-from .. import callform
+from .. import callform, gen
 
 MUTATORS = ["append_one_sample", "interpolate", "recreate_from_average", "integral_match", "noise", "repeat", "trend",
             "smooth", "scale_x", "scale_y", "shift_x", "shift_y", "normalize_x", "normalize_y", "truncate_by_value",
@@ -111,6 +111,11 @@ def gen_op(rng, wv, allow=None, new_x_container=True):
     op = _gen_op(rng, wv, allow, new_x_container)
     if op is not None:
         op["form"] = int(rng.integers(0, 2 ** 31 - 1))
+        # counts the way callers have them at hand: Python ints or NumPy integer scalars, signed or unsigned
+        if op["op"] in ("repeat", "recreate_from_average"):
+            op["args"][0] = gen.count_arg(rng, op["args"][0], p=0.25)[0]
+        elif op["op"] == "interpolate" and "n" in op["kw"]:
+            op["kw"]["n"] = gen.count_arg(rng, op["kw"]["n"], p=0.25)[0]
     return op
 
 
@@ -321,9 +326,9 @@ def random_history(rng, wv, lo=0, hi=4, allow=None, max_len=400):
         op = gen_op(rng, wv, allow=allow)
         if op is None:
             continue
-        if op["op"] == "repeat" and len(wv.get()[0]) * op["args"][0] > max_len:
+        if op["op"] == "repeat" and len(wv.get()[0]) * int(op["args"][0]) > max_len:
             continue
-        if op["op"] == "recreate_from_average" and (len(wv.get()[0]) - 1) * op["args"][0] + 1 > max_len:
+        if op["op"] == "recreate_from_average" and (len(wv.get()[0]) - 1) * int(op["args"][0]) + 1 > max_len:
             continue
         apply(wv, op)
         prog.append(printable(op))
